@@ -430,7 +430,9 @@ pub mod implementations {
         let var = ctx.pop();
 
         let ret = if let Some(primitive) = var {
-            ReturnValue::Value(primitive)
+            // `return o.f` / `return l[i]` returns the value, not a pointer into the object or list
+            // (a pointer would alias the source, e.g. in the result list of `map`).
+            ReturnValue::Value(primitive.move_out_of_heap_primitive()?)
         } else {
             ReturnValue::NoValue
         };
